@@ -97,6 +97,9 @@ def histories():
             add('mkey%d.%s' % (bits, hist), f)
     for n in (2, 3, 4):
         add('mstate.x%d' % n, lambda g, w, n=n: ['ms.op name=load n=%d obj=1 data=%s tape=rand tapedata=%s' % (n, g.sec(40), g.sec(8)), 'ms.op name=permute n=%d obj=1 r=0' % n, 'ms.op name=free n=%d obj=1 dump_raw=1 wipe=%d' % (n, w)])
+    # the primitive every free/clear function rests on: exactly the named range becomes zero
+    for n, off, tot in ((0, 0, 0), (0, 3, 8), (1, 0, 1), (1, 7, 9), (7, 1, 9), (8, 0, 8), (9, 3, 16), (40, 0, 40), (41, 5, 64), (255, 1, 257), (1024, 0, 1024)):
+        add('clean.%d.%d' % (n, off), lambda g, w, n=n, off=off, tot=tot: ['util.clean in=%s off=%d n=%d align=%d null_if_empty=%d' % (g.sec(tot) if tot else '-', off, n, g.shape.randrange(8), 1 if tot == 0 else 0)])
     # C++ cipher objects: destructor and clear(), after use
     for cls, kl in (('aead128', 16), ('aead128a', 16), ('aead80pq', 20), ('siv128', 16), ('siv128a', 16), ('siv80pq', 20), ('isap128a', 16), ('isap128', 16), ('isap80pq', 20),
                     ('aead128_masked', 16), ('aead128a_masked', 16), ('aead80pq_masked', 20)):
